@@ -48,6 +48,7 @@ type usesUnresolved struct {
 
 type usesResolved struct {
 	grouping *Grouping
+	parent   HasDataDefinitions
 	defs     []Definition
 }
 
@@ -311,6 +312,9 @@ func (r *resolver) applyDeviation(y *Module, d *Deviation) error {
 	hasDets, _ := target.(HasDetails)
 	hasType, _ := target.(Leafable)
 	hasListDets, _ := target.(HasListDetails)
+	if err := deviationFitsTarget(d, target); err != nil {
+		return err
+	}
 	if d.Add != nil {
 		if d.Add.configPtr != nil {
 			if hasDets.IsConfigSet() {
@@ -455,6 +459,50 @@ func (r *resolver) applyDeviation(y *Module, d *Deviation) error {
 	return nil
 }
 
+// deviationFitsTarget checks that every property a deviation names is a property
+// nodes of the target's kind have
+func deviationFitsTarget(d *Deviation, target Definition) error {
+	_, hasDets := target.(HasDetails)
+	_, hasType := target.(Leafable)
+	_, hasListDets := target.(HasListDetails)
+	_, hasMusts := target.(HasMusts)
+	_, isList := target.(*List)
+	misfit := func(prop string) error {
+		return fmt.Errorf("%s cannot be deviated on %s, it is a %T", prop, d.Ident(), target)
+	}
+	var details, listDetails, musts, leafProps, unique bool
+	if a := d.Add; a != nil {
+		details = details || a.configPtr != nil || a.mandatoryPtr != nil
+		listDetails = listDetails || a.maxElementsPtr != nil || a.minElementsPtr != nil
+		musts = musts || len(a.musts) > 0
+		leafProps = leafProps || a.units != "" || a.HasDefault()
+		unique = unique || len(a.unique) > 0
+	}
+	if r := d.Replace; r != nil {
+		details = details || r.configPtr != nil || r.mandatoryPtr != nil
+		listDetails = listDetails || r.maxElementsPtr != nil || r.minElementsPtr != nil
+		leafProps = leafProps || r.units != "" || r.HasDefault()
+	}
+	if x := d.Delete; x != nil {
+		musts = musts || len(x.musts) > 0
+		leafProps = leafProps || x.units != "" || x.HasDefault()
+		unique = unique || len(x.unique) > 0
+	}
+	switch {
+	case details && !hasDets:
+		return misfit("config or mandatory")
+	case listDetails && !hasListDets:
+		return misfit("min-elements or max-elements")
+	case musts && !hasMusts:
+		return misfit("must")
+	case leafProps && !hasType:
+		return misfit("units or default")
+	case unique && !isList:
+		return misfit("unique")
+	}
+	return nil
+}
+
 func isArrayStringEqual(a []string, b []string) bool {
 	if len(a) != len(b) {
 		return false
@@ -529,6 +577,10 @@ func (r *resolver) expandUses(parent HasDataDefinitions, u *Uses) ([]Definition,
 	var added []Definition
 	resolved, recursive := r.inProgressUses[g]
 	if recursive {
+		if resolved.parent == parent {
+			// no node in between, the expansion would never end
+			return nil, fmt.Errorf("%s - grouping %s uses itself", SchemaPath(u), g.Ident())
+		}
 		return r.delayRecursiveUses(parent, u, resolved)
 	}
 
@@ -536,7 +588,7 @@ func (r *resolver) expandUses(parent HasDataDefinitions, u *Uses) ([]Definition,
 		fc.Debug.Printf("USE %s:%s", parent.Ident(), u.Ident())
 	}
 
-	resolved = &usesResolved{grouping: g}
+	resolved = &usesResolved{grouping: g, parent: parent}
 	r.inProgressUses[g] = resolved
 
 	// resolve all children
